@@ -471,9 +471,12 @@ func runC07(c *Ctx) {
 		c.verdict(n >= 2, "module | functions that take a write buffer from a sync.Pool", "-", fmt.Sprintf("%d function(s) examined", n), fmt.Sprintf("found %d function(s) using a pooled *bytes.Buffer, the pinned tree has 2 (both WriteHeaders)", n))
 	})
 
-	c.rule("C07.O3", "a read delivers what was asked for or fails: readRaw and readHeadersFromFile hand their buffer on only when File.ReadAt reported no error at all (a short read at the end of the file is an error, not a shorter result), and they hand on the whole buffer they allocated", func() {
-		for _, name := range []string{"(*headerfs.headerStore).readRaw", "headerfs.readHeadersFromFile"} {
-			fn := c.fn(name)
+	c.rule("C07.O3", "a read delivers what was asked for or fails: every function of package headerfs that lets the file fill a buffer (File.ReadAt: readRaw and readHeadersFromFile in the pinned tree) reports success only when ReadAt reported no error at all (a short read at the end of the file is an error, not a shorter result), and never narrows the buffer it had filled", func() {
+		n := 0
+		for _, fn := range c.P.Funcs {
+			if pkgOf(fn) == nil || !strings.HasSuffix(pkgOf(fn).Path(), "/headerfs") || fn.Signature.Results().Len() == 0 {
+				continue
+			}
 			var reads []ssa.Instruction
 			ir.Instrs(fn, func(in ssa.Instruction) {
 				if cc := ir.CallOf(in); cc != nil {
@@ -482,31 +485,36 @@ func runC07(c *Ctx) {
 					}
 				}
 			})
+			if len(reads) == 0 {
+				continue
+			}
+			n++
+			c.R.Funcs[c.nm(fn)] = true
+			last := fn.Signature.Results().Len() - 1
+			if !isErrorType(fn.Signature.Results().At(last).Type()) {
+				c.fail(c.nm(fn)+" | read errors are reported", c.P.Pos(fn.Pos()), "a function that reads from the header file has no error result")
+				continue
+			}
 			var okRets []ssa.Instruction
 			for _, r := range find(fn, isExit) {
-				if ir.IsNil(ir.RetVal(r.(*ssa.Return), 1)) {
+				if errSuccess(r.(*ssa.Return)) {
 					okRets = append(okRets, r)
 				}
 			}
-			c.guarded(fn, errNil("File.ReadAt", reads, 1), 1, "successful return", okRets, 1, gDominate)
+			c.guarded(fn, errNil("File.ReadAt", reads, 1), 1, "possibly successful return", okRets, 1, gDominate)
 			// the whole buffer
-			okWhole := len(reads) == 1
-			if okWhole {
-				buf := argsOf(reads[0])[0]
-				for _, r := range okRets {
-					v := ir.RetVal(r.(*ssa.Return), 0)
-					whole := ir.InfluencedBy(v, func(x ssa.Value) bool { return x == buf })
-					partial := ir.InfluencedBy(v, func(x ssa.Value) bool {
-						sl, ok := x.(*ssa.Slice)
-						return ok && sl.X == buf && (sl.Low != nil || sl.High != nil)
-					})
-					if !whole || partial {
+			okWhole := true
+			for _, rd := range reads {
+				buf := argsOf(rd)[0]
+				ir.Instrs(fn, func(x ssa.Instruction) {
+					if sl, ok := x.(*ssa.Slice); ok && sl.X == buf && (sl.Low != nil || sl.High != nil) {
 						okWhole = false
 					}
-				}
+				})
 			}
-			c.verdict(okWhole, c.nm(fn)+" | the buffer that was filled is returned whole", c.P.Pos(fn.Pos()), "same slice as passed to ReadAt", "the result is not the whole buffer handed to ReadAt (a prefix of a short read would be accepted as the range)")
+			c.verdict(okWhole, c.nm(fn)+" | the buffer that was filled is used whole", c.P.Pos(fn.Pos()), "no narrowing of the slice passed to ReadAt", "the buffer handed to ReadAt is narrowed afterwards (a prefix of a short read would be accepted as the range)")
 		}
+		c.verdict(n >= 2, "headerfs | functions reading from the header file", "", fmt.Sprintf("%d function(s)", n), fmt.Sprintf("%d function(s) of package headerfs call File.ReadAt, at least 2 expected (single-record and range reads)", n))
 	})
 
 	c.rule("C07.G2", "the filter-header store refuses a rollback past genesis before touching anything: in filterHeaderStore.RollbackLastBlock both truncations are reachable only after the header at (tip height - 1) was read successfully (at tip height 0 the subtraction wraps and the read fails) or after an explicit tip-height comparison; a rollback at genesis must not move the index or cut the file", func() {
@@ -542,12 +550,14 @@ func runC07(c *Ctx) {
 func (c *Ctx) indexAtomic() {
 	upd := c.funcObj("github.com/btcsuite/btcwallet/walletdb", "Update")
 	put := c.method("github.com/btcsuite/btcwallet/walletdb", "ReadWriteBucket", "Put")
+	del := c.method("github.com/btcsuite/btcwallet/walletdb", "ReadWriteBucket", "Delete")
 	for _, spec := range []struct {
 		name  string
-		entry *types.Func
+		entry *types.Func // the per-entry helper; nil when it was folded into the operation
+		prim  *types.Func // what the helper does per entry
 	}{
-		{"(*headerfs.headerIndex).addHeaders", c.funcObj("headerfs", "putHeaderEntryInBucket")},
-		{"(*headerfs.headerIndex).truncateIndices", c.funcObj("headerfs", "deleteHeaderEntries")},
+		{"(*headerfs.headerIndex).addHeaders", c.P.FuncObj("headerfs", "putHeaderEntryInBucket"), put},
+		{"(*headerfs.headerIndex).truncateIndices", c.P.FuncObj("headerfs", "deleteHeaderEntries"), del},
 	} {
 		fn := c.fn(spec.name)
 		var sites []ssa.Instruction
@@ -571,9 +581,21 @@ func (c *Ctx) indexAtomic() {
 		if len(cls) == 1 {
 			nEntry, nTip := 0, 0
 			for f := range c.reachable(cls[0]) {
-				nEntry += len(find(f, callTo(spec.entry)))
+				if spec.entry != nil {
+					nEntry += len(find(f, callTo(spec.entry)))
+				}
+				// written out: the per-entry bucket operation inside a loop
+				for _, in := range find(f, callTo(spec.prim)) {
+					if ir.LoopHeaderOf(in.Block()) != nil {
+						nEntry++
+					}
+				}
 			}
-			nTip = len(find(cls[0], callTo(put)))
+			for _, in := range find(cls[0], callTo(put)) {
+				if ir.LoopHeaderOf(in.Block()) == nil {
+					nTip++
+				}
+			}
 			okBoth = nEntry >= 1 && nTip >= 1
 		}
 		c.verdict(okBoth, spec.name+" | entries and tip pointer change in the same transaction", c.P.Pos(fn.Pos()), "entry mutation and tip Put inside the transaction closure", "the transaction no longer contains both the entry mutation and the tip update")
